@@ -226,3 +226,20 @@ M("C10", "weights-rewritten-in-decider", INI, "        weights = [w(alt) * self.
 M("C10", "alternatives-defaultdict", GRM, "        self.alternatives: dict[type, list[type]] = {}", "        self.alternatives: dict[type, list[type]] = defaultdict(list)", "C10.R3")
 M("C10", "twin-copy-by-slice", INI, "compatible_productions = list(global_context.grammar.alternatives[starting_symbol])", "compatible_productions = global_context.grammar.alternatives[starting_symbol][:]", "", expect="silent")
 M("C10", "twin-copy-comprehension", INI, "compatible_productions = list(global_context.grammar.alternatives[starting_symbol])", "compatible_productions = [p for p in global_context.grammar.alternatives[starting_symbol]]", "", expect="silent")
+
+# ------------------------------------------------------------------------------------- C09
+M("C09", "ge-mutate-in-place", GE, "        clone = [i for i in genotype.dna]\n", "        clone = genotype.dna\n", "C09.R1")
+M("C09", "sge-mutate-shallow", SGE, "        dna = deepcopy(genotype.dna)\n        dna[rkey][rindex]", "        dna = dict(genotype.dna)\n        dna[rkey][rindex]", "C09.R1")
+M("C09", "dsge-crossover-shares-lists", DSGE, "                c1[k] = deepcopy(parent1.dna.get(k, []))\n                c2[k] = deepcopy(parent2.dna.get(k, []))\n            else:",
+  "                c1[k] = parent1.dna.get(k, [])\n                c2[k] = parent2.dna.get(k, [])\n            else:", "C09.R3")
+M("C09", "dsge-mutate-copy-on-write", DSGE, "        dna = deepcopy(genotype.dna)\n", "        dna = dict(genotype.dna)\n", "C09.R3")
+M("C09", "stack-crossover-extend", STK, "        c1 = parent1.dna[:rindex] + parent2.dna[rindex:]\n", "        c1 = parent1.dna\n        c1[rindex:] = parent2.dna[rindex:]\n", "C09.R1")
+M("C09", "lexicase-removes-from-input", SEL, "        candidates = list(population)\n        evaluator.evaluate(problem, candidates)\n        n_cases", "        candidates = population\n        evaluator.evaluate(problem, candidates)\n        n_cases", "C09.R1")
+M("C09", "mutation-step-writes-genotype", MUT, "                    nind = self.wrap(representation, mutated)\n                    yield nind", "                    ind.genotype = mutated\n                    yield ind", "C09.R1")
+M("C09", "elitism-sorts-in-place", ELI, "        candidates = list(population)\n", "        candidates = population\n        candidates.sort(key=lambda x: 0)\n", "C09.R1")
+M("C09", "relabel-before-guard", "geneticengine/representations/tree/utils.py", "    non_terminals = g.non_terminals\n    children: list[Any]\n", "    non_terminals = g.non_terminals\n    children: list[Any]\n    i.gengy_nodes = 0\n", "C09.R2")
+M("C09", "find-in-tree-unguarded", TB, '    if hasattr(o, "gengy_types_this_way") and ty in o.gengy_types_this_way:\n        vals = o.gengy_types_this_way[ty]\n        return vals',
+  '    if hasattr(o, "gengy_types_this_way"):\n        vals = o.gengy_types_this_way[ty]\n        return vals', "C09.R4")
+M("C09", "listsize-mutate-in-place", MHL, "current_node_cpy: list = copy.copy(list(current_node.gengy_init_values))", "current_node_cpy: list = current_node.gengy_init_values", "C09.R1")
+M("C09", "twin-ge-clone-list", GE, "        clone = [i for i in genotype.dna]\n", "        clone = list(genotype.dna)\n", "", expect="silent")
+M("C09", "twin-sge-copy-per-key", SGE, "        dna = deepcopy(genotype.dna)\n        dna[rkey][rindex]", "        dna = {k: list(v) for k, v in genotype.dna.items()}\n        dna[rkey][rindex]", "", expect="silent")
